@@ -244,7 +244,18 @@ pub fn shard_runs(
                     let rseed = mix(seed, run, 0);
                     cur[shard].1.store(t0.elapsed().as_millis() as u64, Ordering::Relaxed);
                     cur[shard].0.store(run + 1, Ordering::Relaxed);
-                    let out = f(run, rseed);
+                    let pc0 = crate::mem::panic_count();
+                    let out = match std::panic::catch_unwind(std::panic::AssertUnwindSafe(|| f(run, rseed))) {
+                        Ok(o) => o,
+                        Err(_) => {
+                            // a panic on the shard's main thread (harness or code under test polled by block_on)
+                            let mut o = RunOut::default();
+                            let ps = crate::mem::panics_since("", pc0);
+                            let d = ps.last().map(|p| format!("{} at {}", p.message, p.location)).unwrap_or_default();
+                            o.viol(format!("{}:panic-on-run-thread", "RUN"), format!("run {run} (seed {rseed}) panicked: {d}"), serde_json::json!({"run": run, "seed": rseed, "panic": d}));
+                            o
+                        }
+                    };
                     cur[shard].0.store(0, Ordering::Relaxed);
                     if tx.send((shard, Some((run, rseed, out)))).is_err() {
                         break;
